@@ -81,13 +81,15 @@ def run(repo: Repo, ctx) -> None:
     # (locals are found by role: the variable bound to popleft())
     wl = [n for n in ast.walk(wake.node) if isinstance(n, ast.While)
           and 'conn_waiters' in norm(n.test)]
-    if not wl:
-        raise AnalysisError('C16.R1: _wakeup_next_waiter no longer loops '
-                            'over conn_waiters')
+    if not wl and 'conn_waiters.popleft' not in norm(wake.node):
+        raise AnalysisError('C16.R1: _wakeup_next_waiter no longer pops '
+                            'conn_waiters')
+    wl = wl or [wake.node]      # no loop: decided below as a finding
+    looped = isinstance(wl[0], ast.While)
     wv = [a.targets[0].id for a in ast.walk(wl[0]) if isinstance(
         a, ast.Assign) and isinstance(a.targets[0], ast.Name)
         and norm(a.value).endswith('conn_waiters.popleft()')]
-    ok = bool(wv)
+    ok = bool(wv) and looped
     brk_ok = False
     for n in ast.walk(wl[0]):
         if ok and isinstance(n, ast.If) and norm(n.test) in (
